@@ -8,6 +8,9 @@
 
 ::vstd::prelude::verus! {
 
+// the verification is for a 64-bit target (as the Kani proofs of from_usize / into_usize are)
+global size_of usize == 8;
+
 #[verifier::external_trait_specification]
 pub trait ExFromStr: Sized {
     type ExternalTraitSpecificationFor: core::str::FromStr;
@@ -180,8 +183,20 @@ pub broadcast group group_string_keys {
 }
 // std::string::String items without a vstd specification
 pub assume_specification [std::string::String::with_capacity](n: usize) -> (r: String) ensures r@ == Seq::<char>::empty();
-// a String never holds more than isize::MAX bytes (std invariant)
-pub assume_specification [std::string::String::len](s: &String) -> (r: usize) ensures r as int <= isize::MAX as int;
+// String::len is the length in bytes (a function of the characters); never more than isize::MAX (std invariant)
+pub uninterp spec fn str_byte_len(s: Seq<char>) -> int;
+#[verifier::external_body]
+pub broadcast proof fn axiom_str_byte_len_bound(s: Seq<char>)
+    ensures 0 <= #[trigger] str_byte_len(s) <= isize::MAX as int
+{}
+pub assume_specification [std::string::String::len](s: &String) -> (r: usize) ensures r as int <= isize::MAX as int, r as int == str_byte_len(s@);
+// <[Value]>::contains uses the derived equality of values
+pub uninterp spec fn slice_contains_spec<T>(s: Seq<T>, x: T) -> bool;
+pub assume_specification<T: PartialEq> [<[T]>::contains](s: &[T], x: &T) -> (r: bool) ensures r == slice_contains_spec(s@, *x);
+#[verifier::external_body]
+pub broadcast proof fn axiom_slice_contains_value(s: Seq<Value>, x: Value)
+    ensures #[trigger] slice_contains_spec::<Value>(s, x) == seq_contains(s, x)
+{}
 // String ordering is the lexicographic order str_cmp of the character sequences (std: `impl Ord for str`)
 pub uninterp spec fn str_cmp(a: Seq<char>, b: Seq<char>) -> core::cmp::Ordering;
 #[verifier::external_body]
@@ -381,4 +396,25 @@ pub broadcast proof fn axiom_ends_with_char(s: Seq<char>, c: char)
 pub broadcast proof fn axiom_starts_with_char(s: Seq<char>, c: char)
     ensures #[trigger] starts_with_spec::<char>(s, c) == (s.len() > 0 && s[0] == c)
 {}
+} // verus!
+
+::vstd::prelude::verus! {
+// ---- str::get with a byte range (used by str::substring): std semantics, uninterpreted
+pub uninterp spec fn str_get_spec<'a, I: core::slice::SliceIndex<str>>(s: &'a str, i: I) -> Option<&'a I::Output>;
+#[verifier::allow(undeclared_external_trait)]
+pub assume_specification<'a, I: core::slice::SliceIndex<str>> [str::get::<I>](s: &'a str, i: I) -> (r: Option<&'a I::Output>)
+    ensures r == str_get_spec(s, i);
+#[verifier::external_body]
+pub broadcast proof fn axiom_str_get_range<'a>(s: &'a str, i: core::ops::Range<usize>)
+    ensures
+        (#[trigger] str_get_spec::<core::ops::Range<usize>>(s, i) is Some) == (str_slice(s@, i.start as int, i.end as int) is Some),
+        str_get_spec::<core::ops::Range<usize>>(s, i) matches Some(x) ==> x@ == str_slice(s@, i.start as int, i.end as int).unwrap(),
+{}
+} // verus!
+
+::vstd::prelude::verus! {
+pub assume_specification [str::to_lowercase](s: &str) -> (r: String) ensures r@ == lower_spec(s@);
+pub assume_specification [str::to_uppercase](s: &str) -> (r: String) ensures r@ == upper_spec(s@);
+pub assume_specification<'a> [str::trim](s: &'a str) -> (r: &'a str) ensures r@ == trim_spec(s@);
+pub assume_specification [Value::str_from](v: &Value) -> (r: String) ensures r@ == str_from_spec(*v);
 } // verus!
